@@ -62,6 +62,9 @@ fn entry_strategy(ctx: &Ctx) -> BoxedStrategy<Entry> {
         6 => blocks(0, 5),
         2 => blocks(1, many),
         1 => vec((15900u16..=16000, mode(), 0u8..5), 1..=many),
+        // block counts for which the block table ends exactly where the minimal 128-aligned header ends
+        // (24 + 8 n = 128 k: n = 13, 29, 45), and their neighbours
+        1 => prop::sample::select(vec![12usize, 13, 14, 28, 29, 30, 45]).prop_flat_map(|n| vec((1u16..=200, mode(), 0u8..5), n)),
     ]
     .prop_flat_map(|b| {
         let n = b.len();
